@@ -41,7 +41,9 @@ MANIFEST = {
     "sets and small synthetic volumes.",
     "level_note": "Trusted: the local readers used to decode the results (C03/C05).",
     "technique": "runtime monitoring: differential of decoded datasets across command "
-    "sequences run as real processes; post-condition audit after each successful command",
+    "sequences run as real processes; post-condition audit after each successful command; "
+    "offline no-loss check of each command's own store_chunk event log; contracts active "
+    "inside the child processes",
     "design_ref": "DESIGN.md section 2, C19",
 }
 REACH = []
